@@ -123,9 +123,11 @@ def run_replay_file(repo_copy, target_dir, log_dir, rpath, already_injected):
     return worst, "; ".join(details)
 
 
-def check_property(prop, tier, seed):
+def check_property(prop, tier, seed, only=None):
     t0 = time.time()
     hs = registry.for_property(prop, tier)
+    if only:
+        hs = [h for h in registry.for_property(prop, "thorough") if h.name in only]
     lemmas = smt.lemmas_for(prop)
     if not hs:
         print("no harnesses registered for %s" % prop)
@@ -156,9 +158,13 @@ def check_property(prop, tier, seed):
     budget = int(os.environ.get("GV_BUDGET_S", "840" if tier == "quick" else "3500"))
     for (pkg, feats), ghs in sorted(groups.items()):
         target_dir = os.path.join(scratch, "target-%s-%s" % (pkg, feats.replace(",", "_") or "default"))
-        mem_total = float(os.environ.get("GV_MEM_GB", "40"))
-        per = max(h.mem_gb for h in ghs)
-        jobs = max(1, min(int(os.environ.get("GV_JOBS", "8")), len(ghs), int(mem_total // per)))
+        # as many CBMC processes as fit: the j largest memory caps must fit into the memory budget together
+        mem_total = float(os.environ.get("GV_MEM_GB", "44"))
+        mems = sorted((h.mem_gb for h in ghs), reverse=True)
+        jobs = 1
+        for j in range(1, min(int(os.environ.get("GV_JOBS", "8")), len(ghs)) + 1):
+            if sum(mems[:j]) <= mem_total:
+                jobs = j
         remaining = max(120, budget - int(time.time() - t0))
         res, info = kani.run_group(repo_copy, pkg, feats, ghs, target_dir, log_dir, jobs, remaining,
                                    tag="%s_%s" % (pkg, feats.replace(",", "_") or "default"))
@@ -400,6 +406,7 @@ def main():
     ap.add_argument("--replay")
     ap.add_argument("--list", action="store_true")
     ap.add_argument("--selftest")
+    ap.add_argument("--only", help="development / mutant triage: restrict the property's check to these comma-separated harnesses (any tier)")
     ap.add_argument("--probe", nargs="+", help="development: run the named harnesses (prefix match with trailing *) and print status/time/memory")
     ap.add_argument("--probe-timeout", type=int, default=1200)
     a = ap.parse_args()
@@ -417,7 +424,7 @@ def main():
         ap.error("property id required")
     if a.replay:
         return do_replay(a.prop, a.replay)
-    return check_property(a.prop, a.tier, seed)
+    return check_property(a.prop, a.tier, seed, only=a.only.split(",") if a.only else None)
 
 
 if __name__ == "__main__":
